@@ -182,13 +182,22 @@ theorem triangles_parallel_exact (n : Nat) (val : Nat → Nat → Rat) (s : Sche
     countTriangles n n val (some s) = .ok (cliqueCount n (symEdge val) 3) := by
   rw [triangles_parallel_eq_sequential n val s h, triangles_exact]
 
-/-- The descriptor of the `prange` loop of triangles.pyx as pinned (regenerated from the source on every run by
-    tools/harness/c11_prange.py and re-decided by the driver) is a pure `+` reduction. -/
-theorem pinned_prange_raceFree :
+/-- a *test*, not a property theorem: the descriptor of the `prange` loop of triangles.pyx as pinned is a pure
+    integer `+` reduction. The live obligation is `c11.prange` of the driver, decided on the descriptor regenerated
+    from the source on every run (tools/harness/c11_prange.py). -/
+example :
     PrangeDesc.raceFree
       { function := "count_triangles_from_dag", loopVar := "node", reductions := [("+", "n_triangles")],
-        otherStores := [], reductionReads := 0,
+        reductionTypes := ["long"], otherStores := [], reductionReads := 0,
         callees := [⟨"count_local_triangles_from_dag", true, true, 0, 0⟩] } = true := by
+  decide
+
+/-- the same loop with a `double` accumulator is rejected (`+` on floats is not associative) -/
+example :
+    PrangeDesc.raceFree
+      { function := "count_triangles_from_dag", loopVar := "node", reductions := [("+", "n_triangles")],
+        reductionTypes := ["double"], otherStores := [], reductionReads := 0,
+        callees := [⟨"count_local_triangles_from_dag", true, true, 0, 0⟩] } = false := by
   decide
 
 /-! ### the orientation -/
@@ -384,7 +393,9 @@ theorem kCore_exact (n : Nat) (adj : Nat → Nat → Bool) (k v : Nat) :
 theorem coreNumberSpec_exact (n : Nat) (adj : Nat → Nat → Bool) (v : Nat) (hv : v < n) :
     IsCoreNumber n adj v (coreNumberSpec n adj v) := coreNumberSpec_isCoreNumber n adj v hv
 
-/-- ★ `core_exact` for every CSR representation of the graph (rows stored in any order, as scipy allows):
+/-- ★ `core_exact` of the kernel `compute_core` for every row order (`IsCsrOf`: every stored entry is an edge, stored
+    once, rows in any order — stored zeros and duplicate entries are *not* covered by this statement about the
+    kernel; the entry point removes them first, see `get_core_decomposition_exact`):
     termination within `n` rounds and every label is the core number -/
 theorem core_exact_csr (n : Nat) (adj : Nat → Nat → Bool) (hsym : ∀ a b, adj a b = adj b a)
     (indptr indices : List Nat) (hcsr : IsCsrOf n adj indptr indices) :
@@ -397,7 +408,7 @@ example : IsCsrOf 3 (fun a b => a != b) [0, 2, 4, 6] [2, 1, 2, 0, 1, 0] :=
   ⟨by decide, by decide, by decide⟩
 
 /-- ★ `core_exact`, executable form: `get_core_decomposition` returns exactly the table of `coreNumberSpec`,
-    on every CSR representation of the graph -/
+    for every row order (`IsCsrOf`) -/
 theorem core_exact_spec_csr (n : Nat) (adj : Nat → Nat → Bool) (hsym : ∀ a b, adj a b = adj b a)
     (indptr indices : List Nat) (hcsr : IsCsrOf n adj indptr indices) :
     computeCore indptr indices = some (tab n fun v => (coreNumberSpec n adj v : Int)) := by
@@ -423,7 +434,8 @@ theorem core_exact_spec (n : Nat) (adj : Nat → Nat → Bool) (hsym : ∀ a b, 
       some (tab n fun v => (coreNumberSpec n adj v : Int)) :=
   core_exact_spec_csr n adj hsym _ _ (csrOfEdge_isCsrOf n adj)
 
-/-- ★ `count_cliques` end to end on every CSR representation: whatever order the rows are stored in, the result
+/-- ★ the kernels of `count_cliques` for every row order (`IsCsrOf`; for stored zeros / duplicates see
+    `count_cliques_entry_exact`): whatever order the rows are stored in, the result
     is the number of `k`-cliques -/
 theorem count_cliques_exact_csr (n : Nat) (adj : Nat → Nat → Bool) (hsym : ∀ a b, adj a b = adj b a) (k : Nat)
     (hk : 2 ≤ k) (indptr indices : List Nat) (hcsr : IsCsrOf n adj indptr indices) :
@@ -452,30 +464,57 @@ theorem count_cliques_exact (n : Nat) (adj : Nat → Nat → Bool) (hsym : ∀ a
 
 /-- the Python entry points refuse a non-square matrix (`check_square`; in `get_core_decomposition` since the repair
     e18a5a2e of /repo) and a clique size below two, before any kernel runs -/
-theorem core_and_cliques_refusals (nRow nCol : Nat) (indptr indices : List Nat) (g : Dag)
-    (edge : Nat → Nat → Bool) (k : Int) :
-    (nRow ≠ nCol → getCoreDecomposition nRow nCol indptr indices = .error .valueError) ∧
-    (nRow ≠ nCol → countCliquesEntry nRow nCol g edge k = .error .valueError) ∧
-    (k < 2 → countCliquesEntry nRow nCol g edge k = .error .valueError) := by
+theorem core_and_cliques_refusals (nRow nCol : Nat) (val : Nat → Nat → Rat) (edge : Nat → Nat → Bool) (k : Int) :
+    (nRow ≠ nCol → getCoreDecomposition nRow nCol val = .error .valueError) ∧
+    (nRow ≠ nCol → countCliquesEntry nRow nCol val edge k = .error .valueError) ∧
+    (k < 2 → countCliquesEntry nRow nCol val edge k = .error .valueError) := by
   refine ⟨fun h => by simp [getCoreDecomposition, h], fun h => ?_, fun h => by simp [countCliquesEntry, h]⟩
   unfold countCliquesEntry
   by_cases hk : k < 2
   · rw [if_pos hk]
-  · rw [if_neg hk]; simp [h]
+  · rw [if_neg hk]; simp [getCoreDecomposition, h]
 
-/-- on a square matrix the entry points are the kernels' wrappers: `get_core_decomposition` is `compute_core`, and
-    `count_cliques` is `countCliques` -/
-theorem entry_points_square (n : Nat) (indptr indices : List Nat) (g : Dag) (edge : Nat → Nat → Bool) (k : Nat)
-    (hk : 2 ≤ k) :
-    getCoreDecomposition n n indptr indices = .ok (computeCore indptr indices) ∧
-    countCliquesEntry n n g edge (k : Int) = countCliques n g edge k := by
-  constructor
-  · simp [getCoreDecomposition]
-  · unfold countCliquesEntry countCliques
-    have h1 : ¬ ((k : Int) < 2) := by omega
-    have h2 : ¬ (k < 2) := by omega
-    rw [if_neg h1, if_neg h2]
-    simp
+example : (2 : Nat) ≠ 3 ∧ ((1 : Int) < 2) := by decide
+
+/-- ★ `get_core_decomposition` end to end, whatever the storage: for every matrix whose non-zero entries (duplicate
+    entries summed, stored zeros ignored — the canonicalisation of repair 00914a54) are the symmetric adjacency
+    predicate `adj`, the result is the table of the core numbers. Stored zeros, duplicate entries, unsorted rows
+    and weights do not matter. -/
+theorem get_core_decomposition_exact (n : Nat) (adj : Nat → Nat → Bool) (hsym : ∀ a b, adj a b = adj b a)
+    (val : Nat → Nat → Rat) (hval : ∀ i j, coreEdge val i j = adj i j) :
+    getCoreDecomposition n n val = .ok (some (tab n fun v => (coreNumberSpec n adj v : Int))) := by
+  have he : coreEdge val = adj := by funext i j; exact hval i j
+  unfold getCoreDecomposition
+  simp only [bne_self_eq_false, Bool.false_eq_true, if_false]
+  rw [he, core_exact_spec n adj hsym]
+
+/-- weights 2 and 1/2 on a path: `coreEdge` of the matrix is the path -/
+example : ∀ i j, coreEdge (fun i j : Nat => if i + 1 = j then (2 : Rat) else if j + 1 = i then (1 / 2 : Rat) else 0) i j =
+    (fun i j : Nat => decide (i + 1 = j ∨ j + 1 = i)) i j := by
+  intro i j
+  unfold coreEdge
+  by_cases h1 : i + 1 = j
+  · simp [h1]
+  · by_cases h2 : j + 1 = i
+    · simp [h1, h2]
+    · simp [h1, h2]
+
+/-- ★ `count_cliques` end to end, whatever the storage (stored zeros, duplicate entries, unsorted rows, weights): the
+    core values come from the canonicalised matrix (`coreEdge val`), the DAG from the stored non-zero entries
+    (`edge`); when both are the symmetric predicate `adj` — always the case for positive weights — the result is the
+    number of `k`-cliques, for every `k ≥ 2` -/
+theorem count_cliques_entry_exact (n : Nat) (adj : Nat → Nat → Bool) (hsym : ∀ a b, adj a b = adj b a)
+    (val : Nat → Nat → Rat) (hval : ∀ i j, coreEdge val i j = adj i j) (k : Nat) (hk : 2 ≤ k) :
+    countCliquesEntry n n val adj (k : Int) = .ok (some (cliqueCount n adj k)) := by
+  unfold countCliquesEntry
+  have h1 : ¬ ((k : Int) < 2) := by omega
+  rw [if_neg h1, get_core_decomposition_exact n adj hsym val hval]
+  simp only [Int.toNat_natCast]
+  have hp : (argsort (tab n fun v => (coreNumberSpec n adj v : Int))).Perm (List.range n) := by
+    have := argsort_perm (tab n fun v => (coreNumberSpec n adj v : Int))
+    rwa [tab_length] at this
+  rw [cliques_exact n adj hsym k hk _ hp]
+  rfl
 
 /-! ### clustering coefficient -/
 
@@ -505,6 +544,23 @@ example : ∀ sch, (none : Option Schedule) = some sch → sch.Valid 5 := by int
 
 example : ∀ sch, some (staticSchedule 5 3) = some sch → sch.Valid 5 := by
   intro sch h; cases h; exact staticSchedule_valid 5 3
+
+/-- the coefficient from the triangle count and the degree sequence alone (what the spec lines evaluate on the hub
+    graphs, too large for the brute-force counts) is the specification: `#connected triples = Σ_v C(deg v, 2)` -/
+theorem clusteringSpec_from_degrees (n : Nat) (adj : Nat → Nat → Bool) :
+    clusteringFromDegrees (cliqueCount n adj 3) ((List.range n).map fun v => (nbrs n adj v).length) =
+      clusteringSpec n adj := by
+  unfold clusteringFromDegrees clusteringSpec
+  have hsum := sum_degree_products n adj
+  simp only [hsum]
+  by_cases h0 : tripleCount n adj = 0
+  · simp [h0]
+  · have h2 : 2 * tripleCount n adj ≠ 0 := by omega
+    simp only [h2, h0, if_false]
+    congr 1
+    have hq : (tripleCount n adj : Rat) ≠ 0 := by exact_mod_cast h0
+    push_cast
+    field_simp
 
 /-! ### renumbering the nodes (for C02)
 
@@ -545,7 +601,7 @@ theorem triangles_relabel_invariant {n : Nat} {π πinv : Nat → Nat} (hp : SkN
 example : ∀ sch, (none : Option Schedule) = some sch → sch.Valid 3 := by intro sch h; cases h
 
 /-- ★ `cliques_relabel_invariant`: `count_cliques(k)` of the renumbered graph equals `count_cliques(k)` of the graph,
-    for every `k` (both refuse `k < 2`), whatever CSR representation (row order) either graph is stored in -/
+    for every `k` (both refuse `k < 2`), whatever row order (`IsCsrOf`) either graph is stored in -/
 theorem cliques_relabel_invariant {n : Nat} {π πinv : Nat → Nat} (hp : SkNet.WL.IsPerm n π πinv)
     (adj : Nat → Nat → Bool) (hsym : ∀ a b, adj a b = adj b a) (k : Nat)
     (indptr indices indptr' indices' : List Nat) (hcsr : IsCsrOf n adj indptr indices)
@@ -572,7 +628,7 @@ theorem core_relabel_equivariant_spec {n : Nat} {π πinv : Nat → Nat} (hp : S
   ⟨fun c => isCoreNumber_relabel hp adj v c hv, coreNumberSpec_relabel hp adj v hv⟩
 
 /-- ★ `core_relabel_equivariant`: `get_core_decomposition` of the renumbered graph, read at `π v`, is
-    `get_core_decomposition` of the graph read at `v`, whatever CSR representation either graph is stored in -/
+    `get_core_decomposition` of the graph read at `v`, whatever row order (`IsCsrOf`) either graph is stored in -/
 theorem core_relabel_equivariant {n : Nat} {π πinv : Nat → Nat} (hp : SkNet.WL.IsPerm n π πinv)
     (adj : Nat → Nat → Bool) (hsym : ∀ a b, adj a b = adj b a)
     (indptr indices indptr' indices' : List Nat) (hcsr : IsCsrOf n adj indptr indices)
@@ -607,12 +663,15 @@ theorem triples_relabel_invariant {n : Nat} {π πinv : Nat → Nat} (hp : SkNet
 /-- the 0/1 adjacency matrix of an adjacency predicate -/
 def indicator (adj : Nat → Nat → Bool) (i j : Nat) : Rat := if adj i j then 1 else 0
 
-/-- **C11 on the model**: for every undirected graph (any number of nodes `n`, any symmetric adjacency predicate)
+/-- **C11 on the model**: for every undirected simple graph (any number of nodes `n`, any symmetric, loop-free
+    adjacency predicate — the proofs do not use loop-freeness, but with a loop `coreNumberSpec` and `clusteringSpec`
+    count the loop as a neighbour and are no longer the quantities the property names)
     `count_triangles` is the number of 3-cliques, sequentially and under every schedule of the parallel loop
     (any number of threads); `count_cliques(k)` is the number of `k`-cliques for every `k ≥ 2`;
     `get_core_decomposition` is the core number of every node; `get_clustering_coefficient` is three times the
     triangle count over the number of connected triples (`nan` when there is none), sequentially or in parallel. -/
-theorem C11_model (n : Nat) (adj : Nat → Nat → Bool) (hsym : ∀ a b, adj a b = adj b a) :
+theorem C11_model (n : Nat) (adj : Nat → Nat → Bool) (hsym : ∀ a b, adj a b = adj b a)
+    (_hirr : ∀ a, adj a a = false) :
     countTriangles n n (indicator adj) none = .ok (cliqueCount n adj 3) ∧
     (∀ s : Schedule, s.Valid n → countTriangles n n (indicator adj) (some s) = .ok (cliqueCount n adj 3)) ∧
     (∀ k, 2 ≤ k → countCliques n (csrOfEdge n adj) adj k = .ok (some (cliqueCount n adj k))) ∧
